@@ -18,6 +18,7 @@ import re
 import treeenc
 import yanggen
 from lyxlib import Script, results, rc, DIFF_DEFAULTS, DUP_RECURSIVE, DUP_WITH_FLAGS
+from vlib import hexs
 from props.comps import Comp
 from props.comps_tree import stage1, tree_case, pseudo
 
@@ -473,3 +474,189 @@ def explain(line, model_out, impl_out):
         if x != y:
             return SECTION_NAMES[i] if i < len(SECTION_NAMES) else str(i), x, y
     return None
+
+
+# ------------------------------------------------------------------------------------------------
+# node kinds the model does not cover: anydata / anyxml (every value representation), metadata, opaque nodes
+# ------------------------------------------------------------------------------------------------
+def _kinds():
+    """the generator of the C14 extension slice (anydata / anyxml / opaque / metadata) is reused by import"""
+    from props import comps_c14x
+    return comps_c14x
+
+
+def kinds_norm(dump, meta=True, opaque=True, anyrep=True):
+    """xdump without what apply cannot be asked to reproduce (LYD_NEW / when flags, private pointers) and optionally
+    without metadata, opaque subtrees, or with anydata values reduced to 'has a value' (representation-insensitive)"""
+    out = []
+    skip = None
+    for ent in dump.split(";"):
+        if not ent or ent == "empty":
+            continue
+        f = ent.split(":")
+        if not f[0].isdigit():
+            return dump
+        d = int(f[0])
+        if skip is not None and d > skip:
+            continue
+        skip = None
+        if f[1].startswith("?"):
+            if not opaque:
+                skip = d
+                continue
+            out.append(":".join(f[:4] + f[6:]))
+            continue
+        f[4] = "d" if "d" in f[4] else ""
+        f[5] = ""
+        if not anyrep and f[3].startswith("a"):
+            f[3] = "aN" if f[3].startswith("aN") else "a*"
+        out.append(":".join(f[:6] + (f[6:] if meta else [])))
+    return ";".join(out)
+
+
+class DiffKinds:
+    """C06 / C13 on the implementation for the node kinds the Coq model leaves out: anydata and anyxml nodes whose values
+    have every representation (data tree, XML / JSON / plain string, none) and change between A and B in every combination,
+    at top level, nested and inside list instances; metadata on created / deleted / replaced / unchanged nodes; opaque
+    nodes in A and / or B.  Laws, judged on the extended dump of impl/t_c14x.c (value type and content of anydata, metadata,
+    opaque nodes): diff(A,A) is empty, apply(diff(A,B),A) = B, the same after printing and parsing the diff, and (C13)
+    apply(reverse(diff(A,B)),B) = A, apply(merge(diff(A,B),diff(B,C)),A) = C."""
+    driver = "t_c14x"
+    kinds = None
+    quick_sanitize = False
+
+    def __init__(self, part):
+        self.part = part
+        self.name = "difftree-kinds-" + part
+        self.idx = {}
+
+    def module(self, rng):
+        K = _kinds()
+        g = yanggen.SchemaGen(rng, adversarial=rng.random() < 0.3, state=False, userord=False)
+        m = g.module()
+        for n in m.all_nodes():
+            if n.kind == "leaf" and n.default:
+                n.default = n.default.replace("\r", "")
+            elif n.kind == "leaf-list":
+                n.defaults = [d.replace("\r", "") for d in n.defaults]
+        K.inject_any(rng, m, m.nodes, True, None, [0], 0.9)
+        return m
+
+    def tree(self, rng, m, ig, base=None):
+        K = _kinds()
+        f = ig.forest(m)
+        K.add_any(rng, f, m.nodes, 0.8)
+        if base is not None:
+            f = mix(rng, base, f, m.nodes)
+            K.vary_any(rng, f, 0.5)
+        # empty values
+        for n, _, _ in yanggen.walk(f):
+            if isinstance(n.schema, K.SAny) and rng.random() < 0.2:
+                n.value = ""
+        for n, _, _ in yanggen.walk(f):
+            n.meta = [] if rng.random() < 0.7 else n.meta
+        K.add_meta(rng, f, rng.choice([0.0, 0.1, 0.3]))
+        return f
+
+    def gen(self, rng, tier, scale=1.0):
+        K = _kinds()
+        rng = private_rng(rng, self.name)
+        n = max(1, int((6000 if tier == "thorough" else 500) * scale))
+        pre = []
+        for i in range(n):
+            m = self.module(rng)
+            ig = yanggen.InstGen(rng, meta_prob=0.0)
+            ig.edp = 0.4
+            a = self.tree(rng, m, ig)
+            b = self.tree(rng, m, ig, a) if rng.random() < 0.9 else self.tree(rng, m, ig)
+            c = self.tree(rng, m, ig, b) if rng.random() < 0.8 else [x.clone() for x in a]
+            s = Script()
+            s.ctx()
+            s.mod(m.yang())
+            for t, f in ((0, a), (1, b), (9, c)):
+                s.add("parse", "c0", "t%d" % t, "x", 0x020000, 0x2, hexs(K.to_xml(f)))
+            s.add("xdump", "t0"); s.add("xdump", "t1"); s.add("xdump", "t9")
+            pre.append((m, a, b, c, s))
+        outs = K.stage1(["c14x\t" + "\t".join(p[4].cmds) for p in pre])
+        L = []
+        for (m, a, b, c, s0), out in zip(pre, outs):
+            r = results(out)
+            if len(r) < 9 or r[1] != "0" or rc(r[2]) != 0 or rc(r[3]) != 0 or rc(r[4]) != 0:
+                continue
+            S = K.schema_desc(m)
+            s = Script()
+            s.cmds = list(s0.cmds[:5])
+            # other value representations / opaque nodes, by node index in the parsed trees
+            use_opq = rng.random() < 0.25
+            for t, d in ((0, r[5]), (1, r[6]), (9, r[7])):
+                forest = K.parse_xdump(d)
+                ed = K.plan_edits(rng, forest, S, m.ns, p_any=rng.choice([0.0, 0.3, 0.7]), p_opq=0.6 if use_opq else 0.0)
+                ed = [e for e in ed if not (e[0] == "any" and e[2] == "b")]      # (LYB values: not comparable by content)
+                K.emit_edits(s, ed, 0, t, 9 if t != 9 else 0)
+            ix = {}
+            ix["A"] = s.add("xdump", "t0"); ix["B"] = s.add("xdump", "t1"); ix["C"] = s.add("xdump", "t9")
+            ix["daa_rc"] = s.add("diff", "t0", "t0", DIFF_DEFAULTS, "t4"); ix["daa"] = s.add("xdump", "t4")
+            ix["d_rc"] = s.add("diff", "t0", "t1", DIFF_DEFAULTS, "t2")
+            s.add("dup", "t0", "t3", DUPF); ix["ap_rc"] = s.add("apply", "t3", "t2"); ix["ap"] = s.add("xdump", "t3")
+            fmt = "b" if len(L) % 2 else "x"
+            s.add("dup", "t0", "t16", DUPF)
+            ix["rt_rc"] = s.add("rt", "t2", "t5", fmt, 1, 0x010000, 0, "c0")
+            ix["rap_rc"] = s.add("apply", "t16", "t5"); ix["rap"] = s.add("xdump", "t16")
+            ix["rev_rc"] = s.add("rev", "t2", "t7"); s.add("dup", "t1", "t8", DUPF)
+            ix["vap_rc"] = s.add("apply", "t8", "t7"); ix["vap"] = s.add("xdump", "t8")
+            ix["d2_rc"] = s.add("diff", "t1", "t9", DIFF_DEFAULTS, "t10"); s.add("dup", "t2", "t11", DUPF)
+            ix["mg_rc"] = s.add("dmerge", "t11", "t10", 0); s.add("dup", "t0", "t12", DUPF)
+            ix["map_rc"] = s.add("apply", "t12", "t11"); ix["map"] = s.add("xdump", "t12")
+            ix["A2"] = s.add("xdump", "t0"); ix["B2"] = s.add("xdump", "t1")
+            line = "c14x\t" + "\t".join(s.cmds)
+            self.idx[line] = ix
+            L.append(line)
+        return L
+
+    def facts(self, line, out):
+        r = results(out)
+        ix = self.idx.get(line)
+        if ix is None:
+            return None
+        return {k: r[v] for k, v in ix.items()}
+
+    def judge(self, line, out):
+        if out.startswith("CRASH(") or out == "TIMEOUT":
+            return (None, "crash: " + out)
+        g = self.facts(line, out)
+        if g is None:
+            return None
+        a, b, c = g["A"], g["B"], g["C"]
+        if g["A2"] != a or g["B2"] != b:
+            return (None, "diff / apply modified its inputs")
+        if self.part == "C06":
+            if g["daa_rc"] != "0" or g["daa"] not in ("", "empty"):
+                return (None, "diff(A,A) is not empty: " + g["daa"][:200])
+            if g["d_rc"] != "0":
+                return (None, "lyd_diff_siblings failed: " + g["d_rc"])
+            for what, krc, kd in (("apply(diff(A,B),A)", "ap_rc", "ap"), ("apply(parse(print(diff(A,B))),A)", "rap_rc", "rap")):
+                if what.startswith("apply(parse") and rc(g["rt_rc"]) != 0:
+                    return (None, "printing / parsing the diff failed: " + g["rt_rc"])
+                j = self.compare(what, g[krc], g[kd], b, roundtrip=what.startswith("apply(parse"))
+                if j:
+                    return j
+            return None
+        if g["d_rc"] != "0" or not g["ap_rc"].startswith("0") or kinds_norm(g["ap"]) != kinds_norm(b):
+            return None                   # a C06 matter
+        if g["rev_rc"] != "0":
+            return (None, "lyd_diff_reverse_all failed: " + g["rev_rc"])
+        j = self.compare("apply(reverse(diff(A,B)),B)", g["vap_rc"], g["vap"], a)
+        if j:
+            return j
+        if g["d2_rc"] != "0":
+            return None
+        if g["mg_rc"] != "0":
+            return (None, "lyd_diff_merge_all failed: " + g["mg_rc"])
+        return self.compare("apply(merge(diff(A,B),diff(B,C)),A)", g["map_rc"], g["map"], c)
+
+    def compare(self, what, arc, got, exp, roundtrip=False):
+        if not arc.startswith("0"):
+            return (None, "%s failed: %s" % (what, arc))
+        if kinds_norm(got) == kinds_norm(exp):
+            return None
+        return (None, "%s differs from the expected tree: got %s expected %s" % (what, kinds_norm(got)[:300], kinds_norm(exp)[:300]))
